@@ -5,6 +5,7 @@
  * Line protocol on stdin/stdout:
  *   T <real_s> <real_ns> <mono_s> <mono_ns>   set the virtual clocks                 (no reply)
  *   O <path>                                  clockbound_open    -> "O ok" | "O err <kind> <errno> <detail|->"
+ *   o <path>                                  clockbound_open(path, NULL) -> "O ok" | "O null"
  *   N                                         clockbound_now     -> "N ok <es> <ens> <ls> <lns> <status> <ids>" | "N err <kind> <errno> <detail|->"
  *   C                                         clockbound_close   -> "C ok" | "C err"
  *   U <path> <offset> <hex>                   queue a write to the segment file, performed at the next
@@ -90,6 +91,11 @@ int main(void)
 			if (ctx) { clockbound_close(ctx); ctx = NULL; }
 			ctx = clockbound_open(line + 2, &err);
 			if (ctx) printf("O ok\n"); else print_err("O", &err);
+		} else if (line[0] == 'o') {
+			/* clockbound_open with err == NULL (allowed by clockbound.h) */
+			if (ctx) { clockbound_close(ctx); ctx = NULL; }
+			ctx = clockbound_open(line + 2, NULL);
+			printf(ctx ? "O ok\n" : "O null\n");
 		} else if (line[0] == 'N') {
 			clockbound_now_result res;
 			clockbound_err const *e;
